@@ -6,6 +6,9 @@
 #include "system.c"               /* the real /repo/src/emu/system.c */
 
 #ifdef H_PARSE_CLKOFF_ENTRY
+/* replay witnesses: number of looms, host name bytes of the looms and of the table line, old offsets, offset of the line */
+int w_pc_nl, w_pc_h00, w_pc_h01, w_pc_h10, w_pc_h11, w_pc_h20, w_pc_h21, w_pc_e0, w_pc_e1;
+long w_pc_old0, w_pc_old1, w_pc_old2, w_pc_want;
 void h_parse_clkoff_entry(void)
 {
 	struct loom *l0 = malloc(sizeof(struct loom)), *l1 = malloc(sizeof(struct loom)), *l2 = malloc(sizeof(struct loom));
@@ -29,6 +32,9 @@ void h_parse_clkoff_entry(void)
 		match[i] = i < nl && L[i]->hostname[0] == e->name[0] && L[i]->hostname[1] == e->name[1];
 		if (match[i]) { nmatch++; if (old[i] != 0) taken = 1; }
 	}
+	w_pc_nl = nl; w_pc_h00 = L[0]->hostname[0]; w_pc_h01 = L[0]->hostname[1]; w_pc_h10 = L[1]->hostname[0]; w_pc_h11 = L[1]->hostname[1];
+	w_pc_h20 = L[2]->hostname[0]; w_pc_h21 = L[2]->hostname[1]; w_pc_e0 = e->name[0]; w_pc_e1 = e->name[1];
+	w_pc_old0 = old[0]; w_pc_old1 = old[1]; w_pc_old2 = old[2]; w_pc_want = want;
 	g_err = 0;
 	int r = parse_clkoff_entry(l0, e);
 	VASSERT((r == 0) == (nmatch > 0 && !taken), "accepted iff some loom is on that host and none of them already has an offset");
